@@ -141,6 +141,21 @@ const C11Configs = 4
 // The transports are those of cmd/registration-server (min, obfs4, prefix.DefaultSet, dtls).
 func C11NewProc(cfg int) (*C11Proc, error) {
 	c11Init()
+	return C11NewProcMetrics(cfg, c11Metrics)
+}
+
+// C11FastMetrics returns a metrics object built by the real constructor with the smallest log period,
+// so that its own periodic logger (waitAndLog -> log) runs in a tight loop next to the handlers that
+// call Add on every request (concurrency sub-checks, -race).
+func C11FastMetrics() *metrics.Metrics {
+	lg := logrus.New()
+	lg.SetOutput(io.Discard)
+	return metrics.NewMetrics(lg, time.Nanosecond)
+}
+
+// C11NewProcMetrics is C11NewProc with the metrics object the registrar shares with its front ends.
+func C11NewProcMetrics(cfg int, m *metrics.Metrics) (*C11Proc, error) {
+	c11Init()
 	if c11Err != nil {
 		return nil, c11Err
 	}
@@ -190,7 +205,7 @@ func C11NewProc(cfg int) (*C11Proc, error) {
 	rp := &RegProcessor{
 		ipSelector:                             c11Sel,
 		sock:                                   pr.Sender,
-		metrics:                                c11Metrics,
+		metrics:                                m,
 		transports:                             make(map[pb.TransportType]lib.Transport),
 		authenticated:                          auth,
 		regOverrides:                           regOverrides,
